@@ -230,6 +230,10 @@ def run(tier, replay=None):
                             ot = "BParked"
                         elif ob.get("none"):
                             ot = "BNone"
+                            # refused although some bucket is large enough: an in-range request must get a buffer or wait
+                            geo_sizes = [int(x.split(",")[0].strip("( ")) for x in bs.strip("[]").split(";") if x]
+                            if geo_sizes and size <= max(geo_sizes):
+                                violations.append((f"acquire({size}) was refused (None) although a bucket of {max(geo_sizes)} bytes exists: an in-range request must be served or wait ({prof})", c, t))
                         else:
                             ot = "(BGot %d)" % ob["len"]
                             if ob["len"] < size:
